@@ -30,6 +30,8 @@ pub struct Bounds {
     pub modes: Vec<Mode>,
     pub max_mode_changes: usize,
     pub kills: usize,
+    /// how many workers may be killed by a panic inside `Service::call`
+    pub call_kills: usize,
     /// how many service futures may panic (Ev::Fail)
     pub conn_panics: usize,
     pub drop_stop: bool,
@@ -57,6 +59,7 @@ impl Default for Bounds {
             modes: vec![],
             max_mode_changes: 0,
             kills: 0,
+            call_kills: 0,
             conn_panics: 0,
             drop_stop: false,
             nested: 0,
@@ -151,6 +154,7 @@ pub struct Used {
     pub injects: usize,
     pub mode_changes: usize,
     pub kills: usize,
+    pub call_kills: usize,
     pub conn_panics: usize,
     pub drop_stops: usize,
     pub signals: usize,
@@ -165,6 +169,7 @@ pub fn used(history: &[Step]) -> Used {
             Ev::Advance(_) => u.advances += 1,
             Ev::Inject(..) => u.injects += 1,
             Ev::SetReady { mode: Mode::PanicOnce, .. } => u.kills += 1,
+            Ev::SetReady { mode: Mode::PanicInCall, .. } => u.call_kills += 1,
             Ev::SetReady { .. } => u.mode_changes += 1,
             Ev::DropStop(_) => u.drop_stops += 1,
             Ev::Fail(_) => u.conn_panics += 1,
@@ -261,8 +266,11 @@ pub fn enabled(sys: &Sys, b: &Bounds, u: &Used, conns: &[ConnInfo]) -> Vec<Ev> {
                 if u.kills < b.kills && cur != Mode::PanicOnce && svc == 0 {
                     v.push(Ev::SetReady { slot, svc, mode: Mode::PanicOnce });
                 }
+                if u.call_kills < b.call_kills && cur == Mode::Ready && svc == 0 {
+                    v.push(Ev::SetReady { slot, svc, mode: Mode::PanicInCall });
+                }
             }
-        } else if verif::worker_local_present(slot) && !w.torn_down.borrow().contains(&slot) && b.kills > 0 {
+        } else if verif::worker_local_present(slot) && !w.torn_down.borrow().contains(&slot) && (b.kills > 0 || b.call_kills > 0) {
             v.push(Ev::Teardown(slot));
         }
     }
@@ -505,6 +513,13 @@ pub fn nested_candidates(point: Pt, top: Ev, before: &Snap, max_len: usize) -> V
                 }
             } else {
                 // accept thread is the one waking (it never does today) - nothing
+            }
+        }
+        Point::AfterWake => {
+            // the accept loop reacts to the wake-up before the waker has gone on (for a worker
+            // that is unwinding: before it has been taken apart)
+            if !top_is_accept {
+                out.push(vec![Ev::AcceptTurn]);
             }
         }
     }
